@@ -24,7 +24,7 @@ ASSUMPTIONS = [
     "the oracle covers the monitored application's backends; /switch-app only changes which application the monitor looks at",
     "read-out = public getters + every row of every table of the app (sqlite, queue as the id sequence in delivery order) or the component dictionaries (mem)",
 ]
-REQUIRED_HOOKS = ["get_requests", "routes_seen", "states_built"]
+REQUIRED_HOOKS = ["concurrent_bursts", "get_requests", "routes_seen", "states_built"]
 
 STATES = ["empty", "short_queue", "long_queue", "mixed", "missing_stored", "workflows"]
 
@@ -207,10 +207,65 @@ def fill_params(path, params, info, rng):
             qsets.append(("log", {"log": f"invocation:{(info['inv'] or ['x'])[0]} runner:{info['runners'][0]}"}))
         if "workflow_id" in names and info["inv"]:
             qsets.append(("workflow", {"workflow_id": info["inv"][0]}))
+        # filters combined: every pair of the single-filter sets, and all of them together
+        singles = [(c, q) for c, q in qsets if c in ("status", "task", "page", "workflow", "limit-small", "time")]
+        for i in range(len(singles)):
+            for j in range(i + 1, len(singles)):
+                qsets.append((singles[i][0] + "+" + singles[j][0], {**singles[i][1], **singles[j][1]}))
+        if len(singles) > 2:
+            allq = {}
+            for _c, q in singles:
+                allq.update(q)
+            qsets.append(("all-filters", allq))
+        if "status" in names and "task_id" in names and info["tasks"]:
+            for st in ("registered", "success", "running", "pending"):
+                qsets.append(("status+task:" + st, {"status": st, "task_id": rng.choice(info["tasks"])}))
         for qcls, q in qsets:
             full = url + ("?" + urllib.parse.urlencode(q) if q else "")
             out.append((f"{cls}/{qcls}", full))
     return out
+
+
+def concurrent_gets(pa, app, info, rng, before, inv_ids, ref_keys, hooks, V, distinct, case, rounds):
+    import asyncio
+    import time as _t
+    import httpx
+    br = app.broker
+    real_pop, real_push = br.retrieve_invocation, br.route_invocation
+
+    def slow_pop():
+        _t.sleep(rng.random() * 0.002)       # a blocking backend call: on one event loop nothing else runs meanwhile
+        return real_pop()
+
+    def slow_push(i):
+        _t.sleep(rng.random() * 0.001)
+        return real_push(i)
+    br.retrieve_invocation, br.route_invocation = slow_pop, slow_push
+    others = ["/broker/", "/invocations/", "/", "/broker/refresh", "/orchestrator/"]
+
+    async def burst(urls):
+        async with httpx.AsyncClient(transport=httpx.ASGITransport(app=pa.app), base_url="http://monitor") as client:
+            return await asyncio.gather(*[client.get(u) for u in urls], return_exceptions=True)
+    try:
+        for r in range(rounds):
+            urls = ["/broker/queue"] * rng.choice([2, 3]) + rng.sample(others, 2)
+            rng.shuffle(urls)
+            res = asyncio.run(burst(urls))
+            pa.pynenc_instance = app
+            hooks["get_requests"] += len(urls)
+            hooks["concurrent_bursts"] += 1
+            after = readout.full_readout(app, inv_ids, ref_keys, info["runners"])
+            d = readout.diff(before, after)
+            distinct.append(["concurrent", case["state"], len(urls), case["backend"]])
+            if d:
+                same = sorted(before["public"]["queue"] or []) == sorted(after["public"]["queue"] or [])
+                kind = "queue-order" if all("queue" in x for x in d) and same else ("queue-content" if all("queue" in x for x in d) else "state")
+                V.append({"sig": f"get-changed-system:overlapping-requests:{kind}", "what": f"overlapping GETs {urls} changed {d[:4]} in state '{case['state']}' on {case['backend']}",
+                          "witness": {"urls": urls, "codes": [getattr(x, "status_code", repr(x)[:60]) for x in res], "queue_before": (before["public"]["queue"] or [])[:10],
+                                      "queue_after": (after["public"]["queue"] or [])[:10], "changed_paths": d[:10]}})
+                before = after
+    finally:
+        br.retrieve_invocation, br.route_invocation = real_pop, real_push
 
 
 def run_case(case):
@@ -257,6 +312,18 @@ def run_case(case):
                                           "queue_before": (before["public"]["queue"] or [])[:8], "queue_after": (after["public"]["queue"] or [])[:8],
                                           "queue_len_before": len(before["public"]["queue"] or []), "queue_len_after": len(after["public"]["queue"] or [])}})
                     before = after  # continue from the new state so one change is reported once
+        # ---- overlapping GETs on the monitor's single event loop (what two browser tabs / an auto-refresh do), with small delays injected in the broker calls
+        qlen = len(before["public"]["queue"] or [])
+        single_get_neutral = False
+        if 0 < qlen < 20:
+            # baseline: one GET of the page alone must be neutral in this state (otherwise the single-request mechanism already reported above applies)
+            client.get("/broker/queue")
+            pa.pynenc_instance = app
+            mid = readout.full_readout(app, inv_ids, ref_keys, info["runners"])
+            single_get_neutral = not readout.diff(before, mid)
+            before = mid
+        if 0 < qlen < 20 and single_get_neutral:
+            concurrent_gets(pa, app, info, rng, before, inv_ids, ref_keys, hooks, V, distinct, case, rounds=6 if case.get("variant", 0) == 0 else 12)
     seen, out = Counter(), []
     for v in V:
         seen[v["sig"]] += 1
